@@ -218,9 +218,11 @@ theorem resolve_some {classes : List Cls} {d N n : Nat} {m : Method}
     · exact ⟨c, hc, h3, by rw [h4]; exact hle, h5, h6⟩
   · cases h1
 
-theorem rowOk_cell {schemas : List Schema} {classes : List Cls} {ungen : List Nat} {d n : Nat}
-    (h : rowOk schemas classes ungen d n = true) {c : Cls} (hc : c ∈ classes) (hd : c.domain = d) :
-    cellOk (ungen.contains d) (lookup schemas d c.version n) (resolve classes d c.version n) = true := by
+theorem rowOk_cell {schemas : List Schema} {classes : List Cls} {ungen : List Nat}
+    {depLive : List (Nat × Nat × Nat)} {d n : Nat}
+    (h : rowOk schemas classes ungen depLive d n = true) {c : Cls} (hc : c ∈ classes) (hd : c.domain = d) :
+    cellOk (ungen.contains d) (depLive.contains (d, c.version, n)) (lookup schemas d c.version n)
+      (resolve classes d c.version n) = true := by
   unfold rowOk at h
   rw [selectS_cps, selectM_cps] at h
   have := List.all_eq_true.mp h c hc
@@ -233,6 +235,131 @@ theorem rowOk_cell {schemas : List Schema} {classes : List Cls} {ungen : List Na
 theorem inGrid_iff {chunks : List (Nat × List Nat)} {d n : Nat} :
     inGrid chunks d n = true ↔ ∃ g ∈ chunks, g.1 = d ∧ n ∈ g.2 := by
   simp [inGrid, List.any_eq_true]
+
+
+/-! ### histories of `Opset.__new__` / dynamic lookups -/
+
+/-- every cached key points at an instance carrying exactly the key's class, domain and version -/
+def WF (st : OState) : Prop :=
+  ∀ e ∈ st.cache, st.insts[e.2]? = some ⟨e.1.1, e.1.2.1, e.1.2.2⟩
+
+theorem WF_empty : WF OState.empty := by intro e he; cases he
+
+theorem cacheGet_mem {k : Nat × Nat × Nat} {l : List ((Nat × Nat × Nat) × Nat)} {i : Nat}
+    (h : cacheGet k l = some i) : (k, i) ∈ l := by
+  induction l with
+  | nil => simp [cacheGet] at h
+  | cons e es ih =>
+    simp only [cacheGet] at h
+    split at h
+    next he =>
+      simp only [beq_iff_eq] at he
+      simp only [Option.some.injEq] at h
+      have : e = (k, i) := Prod.ext he h
+      rw [this]; exact List.mem_cons_self
+    next => exact List.mem_cons_of_mem _ (ih h)
+
+/-- a step never changes or removes an existing instance -/
+theorem step_keeps (schemas : List Schema) (st : OState) (c : Cmd) (i : Nat) (x : Inst)
+    (h : st.insts[i]? = some x) : (step schemas st c).1.insts[i]? = some x := by
+  cases c with
+  | new cl d v =>
+    simp only [step]
+    split
+    · split <;> exact h
+    · simp only
+      rw [List.getElem?_append_left]
+      · exact h
+      · exact (List.getElem?_eq_some_iff.mp h).1
+  | getitem j n => simp only [step]; split <;> exact h
+  | contains j n => simp only [step]; split <;> exact h
+  | getattr j n =>
+    simp only [step]
+    split
+    · split <;> exact h
+    · exact h
+
+/-- a step never changes what a cached key points at -/
+theorem step_keeps_cache (schemas : List Schema) (st : OState) (c : Cmd) (k : Nat × Nat × Nat) (i : Nat)
+    (h : cacheGet k st.cache = some i) : cacheGet k (step schemas st c).1.cache = some i := by
+  cases c with
+  | new cl d v =>
+    simp only [step]
+    split
+    · split <;> exact h
+    · next hnone =>
+      simp only [cacheGet]
+      split
+      next heq =>
+        simp only [beq_iff_eq] at heq
+        rw [← heq] at h; rw [h] at hnone; cases hnone
+      next => exact h
+  | getitem j n => simp only [step]; split <;> exact h
+  | contains j n => simp only [step]; split <;> exact h
+  | getattr j n =>
+    simp only [step]
+    split
+    · split <;> exact h
+    · exact h
+
+theorem step_wf (schemas : List Schema) (st : OState) (c : Cmd) (h : WF st) : WF (step schemas st c).1 := by
+  cases c with
+  | new cl d v =>
+    simp only [step]
+    split
+    · split <;> exact h
+    · intro e he
+      simp only at he ⊢
+      rcases List.mem_cons.mp he with rfl | he'
+      · simp
+      · have := h e he'
+        rw [List.getElem?_append_left]
+        · exact this
+        · exact (List.getElem?_eq_some_iff.mp this).1
+  | getitem j n => simp only [step]; split <;> exact h
+  | contains j n => simp only [step]; split <;> exact h
+  | getattr j n =>
+    simp only [step]
+    split
+    · split <;> exact h
+    · exact h
+
+theorem run_wf (schemas : List Schema) (st : OState) (cs : List Cmd) (h : WF st) : WF (run schemas st cs).1 := by
+  induction cs generalizing st with
+  | nil => exact h
+  | cons c cs ih => simp only [run]; exact ih _ (step_wf schemas st c h)
+
+theorem run_keeps (schemas : List Schema) (st : OState) (cs : List Cmd) (i : Nat) (x : Inst)
+    (h : st.insts[i]? = some x) : (run schemas st cs).1.insts[i]? = some x := by
+  induction cs generalizing st with
+  | nil => exact h
+  | cons c cs ih => simp only [run]; exact ih _ (step_keeps schemas st c i x h)
+
+theorem run_keeps_cache (schemas : List Schema) (st : OState) (cs : List Cmd) (k : Nat × Nat × Nat) (i : Nat)
+    (h : cacheGet k st.cache = some i) : cacheGet k (run schemas st cs).1.cache = some i := by
+  induction cs generalizing st with
+  | nil => exact h
+  | cons c cs ih => simp only [run]; exact ih _ (step_keeps_cache schemas st c k i h)
+
+/-- `cls(domain, version)` on a well-formed state returns an instance that carries exactly that domain and
+version, and afterwards the key is cached at that instance -/
+theorem new_gives (schemas : List Schema) (st : OState) (h : WF st) (c d v : Nat) :
+    ∃ i, (step schemas st (.new c d v)).2 = .inst i d v ∧
+      (step schemas st (.new c d v)).1.insts[i]? = some ⟨c, d, v⟩ ∧
+      cacheGet (c, d, v) (step schemas st (.new c d v)).1.cache = some i := by
+  simp only [step]
+  cases hg : cacheGet (c, d, v) st.cache with
+  | some i =>
+    have := h _ (cacheGet_mem hg)
+    simp only at this
+    refine ⟨i, ?_, ?_, ?_⟩
+    · simp only [this]
+    · simp only [this]
+    · simp only [this]; exact hg
+  | none =>
+    refine ⟨st.insts.length, rfl, ?_, ?_⟩
+    · simp
+    · simp [cacheGet]
 
 /-! ### parameter binding -/
 
